@@ -37,6 +37,13 @@ def corpus_optimizer():
     return _cache["opt"]
 
 
+def corpus_probes():
+    if "probes" not in _cache:
+        with open(os.path.join(ROOT, "corpus", "dialect_probes.jsonl"), encoding="utf-8") as f:
+            _cache["probes"] = [json.loads(l) for l in f]
+    return _cache["probes"]
+
+
 def all_dialects():
     from sqlglot.dialects import DIALECT_MODULE_NAMES
 
@@ -70,6 +77,8 @@ def plan(rng: random.Random, budget: int):
     n_misc = budget - n_parse - n_rule
     for _ in range(n_parse):
         work.append({"kind": "parse", "sql": rng.choice(ident), "dialect": rng.choice(dialects), "r": rng.random()})
+    for pr in corpus_probes():
+        work.append({"kind": "parse", "sql": pr["sql"], "dialect": pr["dialect"], "r": rng.random()})
     for _ in range(n_rule):
         o = rng.choice(opt)
         work.append(
